@@ -53,3 +53,4 @@ import impl_bf2  # noqa: E402,F401
 import impl_c14  # noqa: E402,F401
 import impl_ec  # noqa: E402,F401
 import impl_rw  # noqa: E402,F401
+import impl_c19  # noqa: E402,F401
